@@ -61,18 +61,60 @@ MARKERS = [
 OPTIONAL_MARKERS = {"reference-attribute"}
 
 
-def _first_lines(fn):
-    """For each marker name: sorted line numbers (inside process_node) where an Attribute / Name / Call with
-    that identifier occurs."""
+def _inlinable_helpers(cls):
+    """Private methods of the class that are used exactly once (`self._helper` occurs once in the whole class), carry no decorator and whose
+    body is a statement list without any `return` or with a single trailing `return E`: a call statement `self._helper(args)` /
+    `v = self._helper(args)` / `return self._helper(args)` then behaves like the body spliced in at the call (parameters bound to the
+    arguments), so the ORDER in which process_node applies its tests is the order read with the body in place of the call."""
+    uses = {}
+    for n in ast.walk(cls):
+        if isinstance(n, ast.Attribute) and isinstance(n.value, ast.Name) and n.value.id == "self":
+            uses[n.attr] = uses.get(n.attr, 0) + 1
+    res = {}
+    for m in cls.body:
+        if not (isinstance(m, ast.FunctionDef) and m.name.startswith("_") and not m.name.startswith("__") and not m.decorator_list):
+            continue
+        if uses.get(m.name, 0) != 1 or any(isinstance(x, (ast.Yield, ast.YieldFrom, ast.Await, ast.Global, ast.Nonlocal)) for x in ast.walk(m)):
+            continue
+        if any(isinstance(x, (ast.FunctionDef, ast.AsyncFunctionDef, ast.Lambda, ast.ClassDef)) for x in ast.walk(m) if x is not m):
+            continue
+        rets = [x for x in ast.walk(m) if isinstance(x, ast.Return)]
+        if rets and not (len(rets) == 1 and rets[0] is m.body[-1] and rets[0].value is not None):
+            continue
+        res[m.name] = (m, len(rets))
+    return res
+
+
+def _helper_calls(fn, helpers):
+    """[(statement, helper name)] for the call statements of fn that call an inlinable helper directly"""
+    res = []
+    for st in ast.walk(fn):
+        if isinstance(st, (ast.Expr, ast.Assign, ast.AnnAssign, ast.Return)) and isinstance(getattr(st, "value", None), ast.Call):
+            f = st.value.func
+            if isinstance(f, ast.Attribute) and isinstance(f.value, ast.Name) and f.value.id == "self" and f.attr in helpers:
+                res.append((st, f.attr))
+    return res
+
+
+def _first_lines(fn, helpers=None):
+    """For each marker name: sorted positions (inside process_node) where an Attribute / Name / Call with that identifier occurs.  A position
+    is (line, 0, 0) for process_node's own text and (line of the call statement, 1, line inside the helper) for the body of a private
+    single-use helper method called there (see _inlinable_helpers), i.e. the positions of the text with the helper spliced in."""
     occ = {}
-    for node in ast.walk(fn):
-        name = None
-        if isinstance(node, ast.Attribute):
-            name = node.attr
-        elif isinstance(node, ast.Name):
-            name = node.id
-        if name is not None:
-            occ.setdefault(name, []).append(node.lineno)
+
+    def collect(root, key):
+        for node in ast.walk(root):
+            name = None
+            if isinstance(node, ast.Attribute):
+                name = node.attr
+            elif isinstance(node, ast.Name):
+                name = node.id
+            if name is not None:
+                occ.setdefault(name, []).append(key(node))
+    collect(fn, lambda n: (n.lineno, 0, 0))
+    for st, h in _helper_calls(fn, helpers or {}):
+        for b in helpers[h][0].body:
+            collect(b, lambda n, st=st: (st.lineno, 1, n.lineno))
     return {k: sorted(set(v)) for k, v in occ.items()}
 
 
@@ -122,9 +164,10 @@ def translate(repo):
     pn = next((n for n in cls.body if isinstance(n, ast.FunctionDef) and n.name == "process_node"), None)
     if pn is None:
         raise Untranslatable("FoldConstantsPass.process_node not found")
-    occ = _first_lines(pn)
+    helpers = _inlinable_helpers(cls)
+    occ = _first_lines(pn, helpers)
     # order of the tests: walk the markers, each must occur after the previous one
-    order, last = [], 0
+    order, last = [], (0, 0, 0)
     for ident, tag in MARKERS:
         lines = [ln for ln in occ.get(ident, []) if ln > last]
         if not lines:
@@ -136,6 +179,9 @@ def translate(repo):
     # number of `return` statements / raise statements in process_node: a new early exit changes the count
     n_ret = sum(isinstance(x, ast.Return) for x in ast.walk(pn))
     n_raise = sum(isinstance(x, ast.Raise) for x in ast.walk(pn))
+    for _st, h in _helper_calls(pn, helpers):
+        # the single trailing `return E` of an inlined helper is the value of the call, not an exit of process_node
+        n_raise += sum(isinstance(x, ast.Raise) for x in ast.walk(helpers[h][0]))
     always = [tuple(p) for p in consts["_DEFAULT_ALWAYS_FOLD_OPS"]]
     txt = "(* GENERATED by harness/c03_tables.py from " + SRC + " -- do not edit *)\n"
     txt += "From Coq Require Import List String ZArith.\nImport ListNotations.\nLocal Open Scope string_scope.\n\n"
@@ -423,23 +469,33 @@ def move_inits_text(tree):
         raise Untranslatable("_move_initializers_to_graph not found")
     if [a.arg for a in fn.args.args] != ["src", "dst"]:
         raise Untranslatable("_move_initializers_to_graph: parameters are not (src, dst)")
+    # locals renamed by binding position (src, dst, the counter, the loop variable, the popped value, the chosen name): a renaming of locals
+    # cannot change what the function does; the shape below is compared on the canonical names
+    import copy
+    from harness import c01_pynorm as PN
+    fn = copy.deepcopy(fn)
+    try:
+        PN.alpha(fn)
+    except PN.NotNormalisable as e:
+        raise Untranslatable(f"_move_initializers_to_graph: {e}")
+    S, D, C, N, I, U = (f"_v0_{i}" for i in range(6))
     body = [s for s in fn.body if not (isinstance(s, ast.Expr) and isinstance(s.value, ast.Constant))]
-    if len(body) != 2 or ast.unparse(body[0]) not in ("counter: dict[str, int] = {}", "counter = {}") or not isinstance(body[1], ast.For) \
-            or ast.unparse(body[1].target) != "name" or ast.unparse(body[1].iter) != "list(src.initializers)" or body[1].orelse:
+    if len(body) != 2 or ast.unparse(body[0]) not in (f"{C}: dict[str, int] = {{}}", f"{C} = {{}}") or not isinstance(body[1], ast.For) \
+            or ast.unparse(body[1].target) != N or ast.unparse(body[1].iter) != f"list({S}.initializers)" or body[1].orelse:
         raise Untranslatable("_move_initializers_to_graph: not `counter = {}` followed by `for name in list(src.initializers)`")
     loop = body[1].body
     texts = [ast.unparse(s).split("\n")[0] for s in loop]
-    search = [s for s in loop if isinstance(s, (ast.While, ast.If)) and ast.unparse(s.test) == "new_name in dst.initializers"]
+    search = [s for s in loop if isinstance(s, (ast.While, ast.If)) and ast.unparse(s.test) == f"{U} in {D}.initializers"]
     if len(search) != 1 or search[0].orelse:
         raise Untranslatable("_move_initializers_to_graph: no single `new_name in dst.initializers` test")
     bump = [ast.unparse(x) for x in search[0].body]
-    if bump[:2] != ["counter[name] = counter.get(name, 0) + 1", "new_name = f'{name}_{counter[name]}'"]:
+    if bump[:2] != [f"{C}[{N}] = {C}.get({N}, 0) + 1", f"{U} = f'{{{N}}}_{{{C}[{N}]}}'"]:
         raise Untranslatable(f"_move_initializers_to_graph: unknown way of choosing the next name {bump[:2]}")
     if isinstance(search[0], ast.While) and len(bump) != 2:
         raise Untranslatable("_move_initializers_to_graph: the while loop does more than bump the name")
-    if texts[0] != "initializer = src.initializers.pop(name)" or texts[1] != "new_name = name" or texts[-1] != "dst.register_initializer(initializer)":
+    if texts[0] != f"{I} = {S}.initializers.pop({N})" or texts[1] != f"{U} = {N}" or texts[-1] != f"{D}.register_initializer({I})":
         raise Untranslatable(f"_move_initializers_to_graph: unexpected loop body {texts}")
-    if "initializer.name = new_name" not in ast.unparse(fn):
+    if f"{I}.name = {U}" not in ast.unparse(fn):
         raise Untranslatable("_move_initializers_to_graph: the moved value is not renamed")
     loops = isinstance(search[0], ast.While)
     txt = "(* GENERATED by harness/c03_tables.py from " + SRC + " -- do not edit *)\n"
